@@ -523,6 +523,83 @@ def confine_resolve(u: U):
             "a path outside the root is answered with 404")
 
 
+@unit("C15", "file.regular_only", functions=[f"{FR}:FileResponse._get_file_path_stat_encoding"],
+      must_cover=("C15.file.sibling_served", "C15.file.plain_served", "C15.file.nothing_served"))
+def file_regular_only(u: U):
+    """_get_file_path_stat_encoding: whatever it hands back to be opened is a REGULAR file - the pre-compressed sibling
+    (looked at with lstat, so a symlink counts as what it is) only if it is a regular file whose coding the client
+    accepts, else the file itself only if it is regular, else nothing; a sibling that is a directory, a FIFO, a socket,
+    a device, a symlink or missing is passed over in favour of the next candidate"""
+    import stat as _stat
+
+    KINDS = {"reg": _stat.S_IFREG | 0o644, "dir": _stat.S_IFDIR | 0o755, "fifo": _stat.S_IFIFO | 0o644,
+             "sock": _stat.S_IFSOCK | 0o644, "lnk": _stat.S_IFLNK | 0o777, "chr": _stat.S_IFCHR | 0o644}
+    names = list(KINDS) + ["missing"]
+    from aiohttp.web_fileresponse import ENCODING_EXTENSIONS
+
+    exts = list(ENCODING_EXTENSIONS.items())
+    kind = {ext: names[u.choose(len(names), f"kind{ext}")] for ext, _ in exts}
+    kind[""] = names[u.choose(len(names) - 1, "kind.plain")]     # the file itself exists (stat() succeeded earlier)
+    accepted = [enc for _, enc in exts if u.choose(2, f"accepts.{enc}")]
+    accept_encoding = ", ".join(accepted)
+    looked = []
+
+    class _St:
+        def __init__(self, k):
+            self.st_mode = KINDS[k]
+            self.kind = k
+
+    class _P:
+        def __init__(self, ext, suffix=".txt"):
+            self.ext, self.suffix = ext, suffix
+
+        def with_suffix(self, sfx):
+            assert sfx.startswith(self.suffix), sfx
+            return _P(sfx[len(self.suffix):])
+
+        def lstat(self):
+            looked.append(("lstat", self.ext))
+            if kind[self.ext] == "missing":
+                raise FileNotFoundError(self.ext)
+            return _St(kind[self.ext])
+
+        def stat(self):
+            looked.append(("stat", self.ext))
+            return _St(kind[self.ext])
+
+    main = _P("")
+    r = u.obj("FileResponse", {"_path": main}, {}, shared=False)
+    f = u.load(FR, "FileResponse._get_file_path_stat_encoding")
+    from pyvc.runtime import LoopSpec
+
+    u.default_loop_spec = LoopSpec(unroll=True, bound=len(exts) + 1)
+    out = u.call(f, r, accept_encoding)
+    u.check("C15.file.total", out.ok, repr(out))
+    if not out.ok:
+        return
+    path, st, enc = out.value
+    u.check("C15.file.served_entry_is_a_regular_file", path is None or kind[path.ext] == "reg",
+            f"the entry handed back to be opened is a regular file (got a {kind[path.ext] if path is not None else None})",
+            witness={"kinds": dict(kind), "accept_encoding": accept_encoding})
+    u.check("C15.file.stat_is_of_the_served_entry", path is None or getattr(st, "kind", None) == kind[path.ext],
+            "the stat result (size, mtime -> Content-Length, ETag) belongs to the entry that is served")
+    # reference choice: the first acceptable regular sibling in the order of ENCODING_EXTENSIONS, else the plain file
+    want = next((ext for ext, e in exts if e in accepted and kind[ext] == "reg"), None)
+    if want is not None:
+        u.check("C15.file.first_acceptable_regular_sibling", path is not None and path.ext == want
+                and enc == dict(exts)[want],
+                "a regular pre-compressed sibling in a coding the client accepts is served with that coding")
+        u.cover("C15.file.sibling_served")
+    else:
+        u.check("C15.file.falls_back_to_the_plain_file", enc is None and ((path is not None and path.ext == "")
+                                                                          if kind[""] == "reg" else path is None),
+                "no usable sibling: the file itself if it is a regular file (whatever non-regular things carry its "
+                "name plus .gz / .br), else nothing")
+        u.cover("C15.file.plain_served" if kind[""] == "reg" else "C15.file.nothing_served")
+    u.check("C15.file.unaccepted_sibling_not_looked_at", all(ext == "" or dict(exts)[ext] in accepted for _, ext in looked),
+            "a sibling in a coding the client did not ask for is not considered")
+
+
 @unit("C15", "conditional.precedence", functions=[f"{FR}:FileResponse._make_response"])
 def conditional_precedence(u: U):
     """_make_response against RFC 9110 13.2.2 for every combination of If-Match / If-Unmodified-Since / If-None-Match /
